@@ -5,7 +5,7 @@ From Coq Require Import NArith List Bool.
 Import ListNotations.
 From CXV Require Import Gen.TokTy Parse.Balanced Parse.BalancedThms Parse.Declarator Parse.DeclSpec Parse.DeclThms Parse.DeclPins.
 From CXV Require Gen.PinsC01.
-From CXV Require Import Parse.PQName Parse.Using Parse.EnumDecl.
+From CXV Require Import Parse.PQName Parse.Using Parse.EnumDecl Parse.ParamsX.
 From CXV Require Import Parse.EnumList Parse.Specs Parse.VarStmt Parse.FnTail Parse.Init Parse.Members Parse.Template.
 From CXV Require Import Parse.Fold Parse.FoldThms Parse.FoldPlace.
 Open Scope N_scope.
@@ -182,6 +182,16 @@ Theorem enum_definition_decodes_partial : forall p items tc rest,
   = DOk (EDef (option_map pn2_out p) (map strip_e items), rest).
 Proof. exact enum_definition_roundtrip. Qed.
 
+(* The parameter list of a function declaration with default values:
+   `( T1 a = v1, T2 b, ... )` reports every parameter once, in order, with
+   exactly its type (any legal object type), its name and the tokens of its own
+   default value (any expression of the token-level grammar, read up to the
+   ',' or ')' that ends it), and the vararg flag. *)
+Theorem parameters_with_defaults_decode_partial : forall ps va rest,
+  Forall xp_ok ps ->
+  ev (fun f => params_x f (xps_toks ps va ++ ktok RP :: rest)) (DOk (ps, va, rest)).
+Proof. exact parameters_with_defaults_roundtrip. Qed.
+
 (* the functions the hand-written models above mirror (_parse_type, ParsedTypeModifiers.validate, _parse_enumerator_list, _consume_attribute_specifier_seq, _parse_enum_decl, _parse_fn_end, _parse_template_decl, _parse_template_type_parameter, _parse_using, _parse_using_directive, _parse_using_declaration and _parse_using_typealias) are, token for
    token of their syntax trees, the ones the models were written against: the
    translator recomputes the digests from the live code and produces Gen/PinsC01.v
@@ -235,4 +245,5 @@ Print Assumptions using_declaration_decodes_partial.
 Print Assumptions using_alias_decodes_partial.
 Print Assumptions enum_forward_decodes_partial.
 Print Assumptions enum_definition_decodes_partial.
+Print Assumptions parameters_with_defaults_decode_partial.
 Print Assumptions modelled_functions_are_the_pinned_ones.
